@@ -45,6 +45,9 @@ int main(int argc, char** argv)
 		  const char* stamps[] = { "2020-02-29T12:34:56", "1969-12-31T23:59:59", "1970-01-01T00:00:00", "2000-01-01T00:00:00", "1999-12-31T23:59:59", "2038-01-19T03:14:08" };
 		  for (const char* st : stamps) { Date base(String(st) + "Z"); for (auto& z : zs) { Date t(String(st) + z.zone); if (t.time() != base.time() - z.offset) { printf("REPRODUCED Date(\"%s%s\") is %.0f s from the same reading in UTC, the offset says %d\n", st, z.zone, base.time() - t.time(), z.offset); return 1; } } }
 		  Date e("2020-02-29T12:34:56Z"); DateData u = e.splitUTC(); if (u.year != 2020 || u.month != 2 || u.day != 29 || u.hours != 12 || u.minutes != 34 || u.seconds != 56) { printf("REPRODUCED fields of a parsed ISO date\n"); return 1; } }
+		// fractions of a second with 1..9 digits; SHORT / LONG / DATE_ONLY formats of years 1..9999 read back
+		for (int digits = 1; digits <= 9; digits++) { String f = "2001-02-03T04:05:06."; for (int i = 0; i < digits; i++) f << char('1' + i); f << "Z"; Date d(f); Date base("2001-02-03T04:05:06Z"); if (!(d.time() == d.time()) || d.time() < base.time() || d.time() > base.time() + 1) { printf("REPRODUCED Date(\"%s\") is invalid / outside its second\n", *f); return 1; } }
+		for (int y : { 1, 9, 99, 100, 999, 1000, 1969, 2024, 9999 }) { Date d(Date::UTC, y, 3, 4, 5, 6, 7); for (Date::Format fm : { Date::LONG, Date::SHORT, Date::FULL }) { String txt = d.toString(fm, true); Date back(txt); if (!(back.time() == back.time()) || fabs(back.time() - d.time()) > 0.002) { printf("REPRODUCED year %d: toString gives \"%s\", which parses back as %.0f instead of %.0f\n", y, *txt, back.time(), d.time()); return 1; } } }
 		// FULL format (milliseconds) round trip, also before 1970
 		for (double base : { -62135596800.0 + 86400, -1e9, -86400.0, -1.0, 0.0, 1.0, 1e9, 253402300799.0 - 86400 }) for (int ms = 0; ms < 1000; ms += 37) { double t = base + ms / 1000.0; Date d(t); String txt = d.toString(Date::FULL, true);
 			Date back(txt); if (!(back.time() == back.time()) || fabs(back.time() - t) > 0.0011) { printf("REPRODUCED Date(%.3f).toString(FULL) = \"%s\" parses back as %.3f\n", t, *txt, back.time()); return 1; } }
